@@ -1,0 +1,70 @@
+//! Verification hooks (feature `verif-hooks`, off by default).
+//!
+//! * `emit` hands every graph to an installed observer at quiescent points
+//!   (after a build / import / update, before a render).
+//! * read-only dumps of private indexes for invariant walkers.
+//! * a queue of key candidates consulted by `random_key` before the RNG, so a
+//!   monitor can force collisions with existing keys.
+
+use std::collections::{HashMap, HashSet, VecDeque};
+use std::sync::{Mutex, OnceLock};
+
+use super::Graph;
+use crate::model::{Key, LineRange, NodeId, NodesMap};
+
+static HOOK: OnceLock<Box<dyn Fn(&Graph, &str) + Send + Sync>> = OnceLock::new();
+static KEY_CANDIDATES: Mutex<VecDeque<String>> = Mutex::new(VecDeque::new());
+
+pub fn set_hook(hook: Box<dyn Fn(&Graph, &str) + Send + Sync>) {
+    let _ = HOOK.set(hook);
+}
+
+pub fn emit(graph: &Graph, op: &str) {
+    if let Some(hook) = HOOK.get() {
+        hook(graph, op);
+    }
+}
+
+pub fn push_key_candidates(candidates: Vec<String>) {
+    KEY_CANDIDATES.lock().unwrap().extend(candidates);
+}
+
+pub fn clear_key_candidates() {
+    KEY_CANDIDATES.lock().unwrap().clear();
+}
+
+pub fn next_key_candidate() -> Option<String> {
+    KEY_CANDIDATES.lock().unwrap().pop_front()
+}
+
+impl Graph {
+    pub fn verif_keys(&self) -> HashMap<Key, NodeId> {
+        self.keys.clone()
+    }
+
+    pub fn verif_nodes_map(&self) -> HashMap<Key, NodesMap> {
+        self.nodes_map.clone()
+    }
+
+    pub fn verif_global_nodes_map(&self) -> HashMap<NodeId, LineRange> {
+        self.global_nodes_map.clone()
+    }
+
+    pub fn verif_lines_len(&self) -> usize {
+        self.arena.verif_lines_len()
+    }
+
+    pub fn verif_titles(&self) -> HashMap<Key, String> {
+        self.keys_to_ref_text.clone()
+    }
+
+    /// raw (unfiltered) reference index: (block references, inline references)
+    pub fn verif_index_dump(
+        &self,
+    ) -> (
+        HashMap<Key, HashSet<NodeId>>,
+        HashMap<Key, HashSet<NodeId>>,
+    ) {
+        self.index.verif_dump()
+    }
+}
